@@ -515,6 +515,41 @@ func c19Fields(p *core.Program, r *core.Report) {
 		rn := recvName(fi)
 		env := map[string]ival{}
 		guarded := false
+		// an unexported helper that every caller reaches only behind its own `time < BASE_TIME` way out,
+		// handing on its own time parameter, starts out with that established
+		if !fi.Obj.Exported() {
+			calls, allGuarded := 0, true
+			for _, cf := range p.Funcs {
+				if cf.Pkg != fi.Pkg || cf.Decl.Body == nil || cf == fi {
+					continue
+				}
+				crn := recvName(cf)
+				ast.Inspect(cf.Decl.Body, func(n ast.Node) bool {
+					call, ok := n.(*ast.CallExpr)
+					if !ok || calleeFunc(cf.Pkg.TypesInfo, call) != fi.Obj {
+						return true
+					}
+					calls++
+					g := false
+					ast.Inspect(cf.Decl.Body, func(m ast.Node) bool {
+						if ifs, ok := m.(*ast.IfStmt); ok && ifs.End() < call.Pos() && len(ifs.Body.List) > 0 {
+							cs := strings.ReplaceAll(stripSpaces(types.ExprString(ifs.Cond)), crn+".", "")
+							if _, isRet := ifs.Body.List[len(ifs.Body.List)-1].(*ast.ReturnStmt); isRet && cs == "time<BASE_TIME" {
+								g = true
+							}
+						}
+						return true
+					})
+					if !g {
+						allGuarded = false
+					}
+					return true
+				})
+			}
+			if calls > 0 && allGuarded {
+				guarded = true
+			}
+		}
 		var eval func(e ast.Expr) (ival, bool)
 		eval = func(e ast.Expr) (ival, bool) {
 			e = ast.Unparen(e)
@@ -765,6 +800,40 @@ func c19FormatParse(p *core.Program, r *core.Report) {
 			}
 			return true
 		})
+		if loop == nil {
+			// the pattern walked by index: for i := …; i < n; i++ { ch := pattern[i]; … }
+			ast.Inspect(fi.Decl.Body, func(n ast.Node) bool {
+				fs, ok := n.(*ast.ForStmt)
+				if !ok || loop != nil || fs.Body == nil {
+					return true
+				}
+				for _, st := range fs.Body.List {
+					as, ok := st.(*ast.AssignStmt)
+					if !ok || len(as.Lhs) != 1 || len(as.Rhs) != 1 {
+						continue
+					}
+					id, ok := as.Lhs[0].(*ast.Ident)
+					if !ok {
+						continue
+					}
+					ix, ok := ast.Unparen(stripConvs(info, as.Rhs[0])).(*ast.IndexExpr)
+					if !ok {
+						continue
+					}
+					switch xt := info.TypeOf(ix.X).Underlying().(type) {
+					case *types.Basic:
+						if xt.Info()&types.IsString != 0 {
+							loop = &ast.RangeStmt{For: fs.For, Value: id, Body: fs.Body}
+						}
+					case *types.Slice:
+						if b, ok := xt.Elem().Underlying().(*types.Basic); ok && b.Info()&types.IsInteger != 0 {
+							loop = &ast.RangeStmt{For: fs.For, Value: id, Body: fs.Body}
+						}
+					}
+				}
+				return true
+			})
+		}
 		if loop == nil {
 			return out, "?"
 		}
